@@ -112,3 +112,70 @@ Theorem C04_code_wiring_cli_wiring : ltac:(let t := type of @EquivWiring.cli_wir
 Proof. exact (@EquivWiring.cli_wiring). Qed.
 Print Assumptions C04_code_wiring_cli_wiring.
 
+(* ---- tie to the code: the certificate fingerprint and the places that obtain the presented certificate (coq/Equiv/EquivCerts.v): re-checked here against the definitions regenerated from /repo's working tree; see DESIGN.md 11.8 ---- *)
+From NV Require Equiv.EquivCerts.
+Theorem C04_code_fingerprint_tie : ltac:(let t := type of @EquivCerts.fingerprint_tie in exact t).
+Proof. exact (@EquivCerts.fingerprint_tie). Qed.
+Print Assumptions C04_code_fingerprint_tie.
+
+Theorem C04_code_fingerprint_default_tie : ltac:(let t := type of @EquivCerts.fingerprint_default_tie in exact t).
+Proof. exact (@EquivCerts.fingerprint_default_tie). Qed.
+Print Assumptions C04_code_fingerprint_default_tie.
+
+Theorem C04_code_default_algorithm_tie : ltac:(let t := type of @EquivCerts.default_algorithm_tie in exact t).
+Proof. exact (@EquivCerts.default_algorithm_tie). Qed.
+Print Assumptions C04_code_default_algorithm_tie.
+
+Theorem C04_code_server_peer_tie : ltac:(let t := type of @EquivCerts.server_peer_tie in exact t).
+Proof. exact (@EquivCerts.server_peer_tie). Qed.
+Print Assumptions C04_code_server_peer_tie.
+
+Theorem C04_code_client_peer_tie : ltac:(let t := type of @EquivCerts.client_peer_tie in exact t).
+Proof. exact (@EquivCerts.client_peer_tie). Qed.
+Print Assumptions C04_code_client_peer_tie.
+
+Theorem C04_code_titan_client_peer_tie : ltac:(let t := type of @EquivCerts.titan_client_peer_tie in exact t).
+Proof. exact (@EquivCerts.titan_client_peer_tie). Qed.
+Print Assumptions C04_code_titan_client_peer_tie.
+
+Theorem C04_code_x509_to_cryptography_tie : ltac:(let t := type of @EquivCerts.x509_to_cryptography_tie in exact t).
+Proof. exact (@EquivCerts.x509_to_cryptography_tie). Qed.
+Print Assumptions C04_code_x509_to_cryptography_tie.
+
+Theorem C04_code_wrapper_getpeercert_tie : ltac:(let t := type of @EquivCerts.wrapper_getpeercert_tie in exact t).
+Proof. exact (@EquivCerts.wrapper_getpeercert_tie). Qed.
+Print Assumptions C04_code_wrapper_getpeercert_tie.
+
+Theorem C04_code_sites_outside_certificates_use_default : ltac:(let t := type of @EquivCerts.sites_outside_certificates_use_default in exact t).
+Proof. exact (@EquivCerts.sites_outside_certificates_use_default). Qed.
+Print Assumptions C04_code_sites_outside_certificates_use_default.
+
+Theorem C04_code_security_sites_present : ltac:(let t := type of @EquivCerts.security_sites_present in exact t).
+Proof. exact (@EquivCerts.security_sites_present). Qed.
+Print Assumptions C04_code_security_sites_present.
+
+(* ---- the fingerprint format: equality of fingerprints is equality of SHA-256 digests (coq/Proofs/Certs_format.v) ---- *)
+From NV Require Proofs.Certs_format.
+Theorem C04_model_fingerprint_default_strict : ltac:(let t := type of @Certs_format.fingerprint_default_strict in exact t).
+Proof. exact (@Certs_format.fingerprint_default_strict). Qed.
+Print Assumptions C04_model_fingerprint_default_strict.
+
+Theorem C04_model_fingerprint_eq_iff_digest_eq : ltac:(let t := type of @Certs_format.fingerprint_eq_iff_digest_eq in exact t).
+Proof. exact (@Certs_format.fingerprint_eq_iff_digest_eq). Qed.
+Print Assumptions C04_model_fingerprint_eq_iff_digest_eq.
+
+Theorem C04_model_fingerprint_eqb_iff_digest_eq : ltac:(let t := type of @Certs_format.fingerprint_eqb_iff_digest_eq in exact t).
+Proof. exact (@Certs_format.fingerprint_eqb_iff_digest_eq). Qed.
+Print Assumptions C04_model_fingerprint_eqb_iff_digest_eq.
+
+Theorem C04_model_fingerprint_sha256_ne_sha1 : ltac:(let t := type of @Certs_format.fingerprint_sha256_ne_sha1 in exact t).
+Proof. exact (@Certs_format.fingerprint_sha256_ne_sha1). Qed.
+Print Assumptions C04_model_fingerprint_sha256_ne_sha1.
+
+Theorem C04_model_peer_fingerprint_is_hash_of_presented_der : ltac:(let t := type of @Certs_format.peer_fingerprint_is_hash_of_presented_der in exact t).
+Proof. exact (@Certs_format.peer_fingerprint_is_hash_of_presented_der). Qed.
+Print Assumptions C04_model_peer_fingerprint_is_hash_of_presented_der.
+
+Theorem C04_model_pyopenssl_fingerprint_is_hash_of_dumped_der : ltac:(let t := type of @Certs_format.pyopenssl_fingerprint_is_hash_of_dumped_der in exact t).
+Proof. exact (@Certs_format.pyopenssl_fingerprint_is_hash_of_dumped_der). Qed.
+Print Assumptions C04_model_pyopenssl_fingerprint_is_hash_of_dumped_der.
